@@ -1063,24 +1063,19 @@ fail:
 }
 
 /*
- * Server has deleted a resource
+ * Take the record of a deleted resource out of the dynamic resource file
  */
 static int
-coap_op_resource_deleted(coap_context_t *context,
-                         coap_str_const_t *resource_name,
-                         void *user_data) {
+coap_op_dyn_resource_deleted(coap_context_t *context,
+                             coap_str_const_t *resource_name) {
   FILE *fp_orig = NULL;
   FILE *fp_new = NULL;
   char *new = NULL;
   coap_proto_t e_proto;
   coap_string_t *name = NULL;
   coap_binary_t *raw_packet = NULL;
-  (void)user_data;
 
   /* Either file may not be in use (not asked for, or its set up failed) */
-  if (context->obs_cnt_save_file)
-    coap_op_obs_cnt_deleted(context, resource_name);
-
   if (!context->dyn_resource_save_file)
     return 1;
 
@@ -1136,6 +1131,27 @@ fail:
   }
   coap_free_type(COAP_STRING, new);
   return 0;
+}
+
+/*
+ * Server has deleted a resource
+ */
+static int
+coap_op_resource_deleted(coap_context_t *context,
+                         coap_str_const_t *resource_name,
+                         void *user_data) {
+  int ret;
+  (void)user_data;
+
+  /*
+   * The resource's record goes first, its Observe counter second: a process
+   * that dies in between must not come back with the resource, its observers
+   * and no counter (the Observe values would start again from the beginning).
+   */
+  ret = coap_op_dyn_resource_deleted(context, resource_name);
+  if (context->obs_cnt_save_file)
+    coap_op_obs_cnt_deleted(context, resource_name);
+  return ret;
 }
 
 COAP_API int
